@@ -71,7 +71,7 @@ EXTRA = {
  "C12": "operands that are literal containers or strings indexed in place and chains of index/call/field selections",
  "C13": "a symbolic illegal character in three placements, contexts in which a later part overrides or hides the part with the hole, Prepare asked again after a rejection",
  "C15": "values handed out by foreach (kept directly, through a function, as previous value, in an array), values computed inside array literals or call arguments and then mutated",
- "C16": "host strings of arbitrary bytes (invalid UTF-8): len, index and foreach agree with the host language's own walk",
+ "C16": "host strings of arbitrary bytes (invalid UTF-8): len, index and foreach agree with the host language's own walk; long string keys differing in one position",
  "C17": "replace/match with symbolic input and replacement against the host regexp library, float() and more argument types for the conversions, concrete instants and zones with sub-minute offsets",
  "C18": "35 statement kinds as the last statement of a function body in four places of definition, hash literals with repeated or coinciding keys, programs ending in nested blocks",
  "C19": "programs large enough for whole-script budgets (2-3 functions with 300/700-term constant chains), two equal but separately allocated host objects with pointer-rich fields, NaN and signed-zero hash keys, interface-keyed host maps with coinciding keys",
